@@ -125,7 +125,7 @@ class Trial:
     __slots__ = (
         "t", "inp", "dt", "rho", "lamb", "accepted", "out", "reads_before", "reads_after",
         "evals_before", "evals_after", "nfired_before", "nfired_after", "lin_before", "lin_after",
-        "exc", "penalty", "solver_rho_cb", "filter_after", "filter_before", "cb", "used",
+        "exc", "penalty", "solver_rho_cb", "filter_after", "filter_before", "cb", "used", "inner_before", "inner_after",
     )
 
     def key(self):
@@ -185,6 +185,8 @@ class RecordingSolver(Solver):
         tr.evals_before = dict(ex.problem.count)
         tr.nfired_before = len(ex.problem.fired)
         tr.lin_before = (LIN.n_factor, LIN.n_solve, len(LIN.fired))
+        tr.inner_before = len(LIN.inner_reports)
+        tr.inner_after = None
         tr.exc = None
         tr.penalty = None
         tr.cb = None
@@ -205,12 +207,14 @@ class RecordingSolver(Solver):
             tr.evals_after = dict(ex.problem.count)
             tr.nfired_after = len(ex.problem.fired)
             tr.lin_after = (LIN.n_factor, LIN.n_solve, len(LIN.fired))
+            tr.inner_after = len(LIN.inner_reports)
             raise
         tr.lamb, tr.accepted, tr.out = float(r.lamb), bool(r.accepted), r.iterate
         tr.reads_after = ex.clock.n
         tr.evals_after = dict(ex.problem.count)
         tr.nfired_after = len(ex.problem.fired)
         tr.lin_after = (LIN.n_factor, LIN.n_solve, len(LIN.fired))
+        tr.inner_after = len(LIN.inner_reports)
         ex.log(("trial.end", tr.t, fb(tr.lamb), tr.accepted, tr.out.x.tobytes(), tr.out.y.tobytes()))
         return r
 
@@ -584,6 +588,8 @@ def execute(world, *, problem=None, solver=None, params=None, reuse_solver=False
     ex.lin_fired = list(LIN.fired)
     ex.lin_counts = (LIN.n_factor, LIN.n_solve, LIN.n_obs_solve)
     ex.lin_nonfinite = LIN.nonfinite_returns
+    ex.lin_inner_counts = dict(LIN.n_inner)
+    ex.lin_inner_reports = list(LIN.inner_reports)
     if alias:
         problem._check_handed("solve.end", full=True)
     return ex
